@@ -147,8 +147,11 @@ type unaryRpcArgs struct {
 }
 
 type streamHandler struct {
-	ch     chan *goatorepo.Rpc
-	done   chan struct{}
+	ch   chan *goatorepo.Rpc
+	done chan struct{}
+	// ctx is the context of the stream's handler; cancel cancels it, and it is
+	// done at the latest when the handler has returned.
+	ctx    context.Context
 	cancel context.CancelFunc
 }
 
@@ -436,17 +439,25 @@ func (h *handler) processStreamingRpc(
 	sd *grpc.StreamDesc,
 	rpc *goatorepo.Rpc,
 ) error {
-	h.mu.Lock()
-	defer h.mu.Unlock()
-
 	resetStream := rpc.GetReset_() != nil && rpc.GetReset_().Type == "RST_STREAM"
 
-	if handler, ok := h.streams[rpc.Id]; ok {
+	// Streams are only ever registered from here (the connection's read loop),
+	// so the registry lock is only needed around the map accesses themselves.
+	// Nothing below may block while holding it: a stream whose handler wants to
+	// unregister would otherwise wedge the whole connection.
+	h.mu.Lock()
+	handler, ok := h.streams[rpc.Id]
+	h.mu.Unlock()
+
+	if ok {
 		if resetStream {
 			handler.cancel()
 		} else {
 			select {
 			case handler.ch <- rpc:
+			case <-handler.ctx.Done():
+				// The stream's handler has returned (or been cancelled) and
+				// will not read this: drop it rather than wait for ever.
 			case <-clientCtx.Done():
 				return clientCtx.Err()
 			case <-h.ctx.Done():
@@ -478,19 +489,25 @@ func (h *handler) processStreamingRpc(
 
 	ctx, cancel, err := contextFromHeaders(clientCtx, rpc.GetHeader())
 	if err != nil {
+		cancel()
 		log.Info().Msgf("invalid headers: calling RST stream %d", rpc.Id)
 		return h.resetStream(rpc)
 	}
 
 	streamId := rpc.Id
 
-	h.streams[streamId] = streamHandler{
+	sh := streamHandler{
 		ch:     make(chan *goatorepo.Rpc, 1),
 		done:   make(chan struct{}, 1),
+		ctx:    ctx,
 		cancel: cancel,
 	}
 
-	go h.runStream(info, sd, rpc, streamId, ctx, h.streams[streamId])
+	h.mu.Lock()
+	h.streams[streamId] = sh
+	h.mu.Unlock()
+
+	go h.runStream(info, sd, rpc, streamId, ctx, sh)
 	return nil
 }
 
@@ -604,7 +621,15 @@ func (h *handler) resetStream(rpc *goatorepo.Rpc) error {
 		reset.Header.ProxyNext = rpc.Header.ProxyRecord[0 : len(rpc.Header.ProxyRecord)-1]
 	}
 
-	return h.rw.Write(h.ctx, reset)
+	// Like every other envelope, the reset goes through the connection's single
+	// writer: written directly it could overtake the trailer of the very stream
+	// it answers, which is still sitting in the writer's queue.
+	select {
+	case h.writeChan <- reset:
+		return nil
+	case <-h.ctx.Done():
+		return context.Cause(h.ctx)
+	}
 }
 
 // contextFromHeaders returns a new incoming context with metadata populated
